@@ -162,6 +162,44 @@ class Ctx:
                 return True
         return False
 
+    def trait_impl_bodies(self, crate, trait_path, name):
+        return [b for b in crate.bodies if b.impl_trait == trait_path and b.name == name and not b.in_test_mod()]
+
+    def callees_resolved(self, body):
+        """local callee bodies of `body`: direct calls, resolved calls, closures, and for unresolved
+        trait-method calls every in-crate impl of that method (A5)."""
+        out = []
+        seen = set()
+        crate = body.crate
+        for p in self.local_callees(body):
+            b2 = crate.body(p)
+            if b2 is not None and b2.path not in seen:
+                seen.add(b2.path)
+                out.append(b2)
+        for _bi, t in body.calls():
+            f = t['func']
+            tr = f.get('trait')
+            if tr and 'resolved' not in f:
+                for b2 in self.trait_impl_bodies(crate, tr, f.get('name')):
+                    if b2.path not in seen:
+                        seen.add(b2.path)
+                        out.append(b2)
+        return out
+
+    def reach_set(self, entries):
+        """bodies reachable from the entry bodies through callees_resolved (entries included)"""
+        seen = {}
+        st = list(entries)
+        while st:
+            b = st.pop()
+            if b.path in seen:
+                continue
+            seen[b.path] = b
+            for b2 in self.callees_resolved(b):
+                if b2.path not in seen:
+                    st.append(b2)
+        return list(seen.values())
+
     def motion_checkers(self):
         """bool functions of the core crate (outside trait impls of the checker itself) with at
         least two `&S` parameters that reach a validity query"""
